@@ -372,12 +372,21 @@ fn update_function_arg_info(
     } else {
         key.iter_args().collect()
     };
-    for (i, (name, default_val)) in entries.into_iter().enumerate() {
+    for (name, default_val) in entries {
+        if let Some(original) = symbol_table.lookup_declaration(&name.v) {
+            // two parameters (or fields) with the same name
+            ctx.errors.push(Error::NameClash {
+                name: name.v.clone(),
+                original,
+                new: Declaration::Var(name.node()),
+            });
+            continue;
+        }
         symbol_table.extend_declaration(name.v.clone(), Declaration::Var(name.node()));
-        arg_indices.insert(name.v.clone());
+        let index = arg_indices.insert(name.v.clone()) as usize;
         match default_val {
             Some(default_arg) => {
-                default_args.insert(i, default_arg);
+                default_args.insert(index, default_arg);
             }
             None => {
                 required_args.insert(name.v.clone());
